@@ -468,6 +468,30 @@ func EncryptFragment(f *Fragment, key, iv []byte, ipd *InitProtectData) error {
 		return fmt.Errorf("only one trun supported")
 	}
 	nrSamples := int(f.Moof.Traf.Trun.SampleCount())
+	fss, err := f.GetFullSamples(ipd.Trex)
+	if err != nil {
+		return fmt.Errorf("get full samples: %w", err)
+	}
+	// Check the sub-sample maps before anything is changed: the saiz box stores each sample's
+	// auxiliary information size in one byte.
+	patterns := make([][]SubSamplePattern, len(fss))
+	for i, fs := range fss {
+		patterns[i], err = ipd.ProtFunc(fs.Data, ipd.Scheme)
+		if err != nil {
+			return fmt.Errorf("get protect ranges: %w", err)
+		}
+		auxInfoSize := 0
+		if ipd.Scheme == "cenc" {
+			auxInfoSize = len(iv)
+		}
+		if len(patterns[i]) > 0 {
+			auxInfoSize += 2 + 6*len(patterns[i])
+		}
+		if auxInfoSize > 255 {
+			return fmt.Errorf("sample %d: %d sub-samples give %d bytes of auxiliary information, more than the 255 a saiz entry can hold",
+				i+1, len(patterns[i]), auxInfoSize)
+		}
+	}
 	saiz := NewSaizBox(nrSamples)
 	_ = traf.AddChild(saiz)
 	saio := NewSaioBox()
@@ -482,17 +506,10 @@ func EncryptFragment(f *Fragment, key, iv []byte, ipd *InitProtectData) error {
 		return fmt.Errorf("unknown scheme %s", ipd.Scheme)
 	}
 	_ = traf.AddChild(senc)
-	fss, err := f.GetFullSamples(ipd.Trex)
-	if err != nil {
-		return fmt.Errorf("get full samples: %w", err)
-	}
 
-	for _, fs := range fss {
+	for i, fs := range fss {
 		sample := fs.Data
-		subsamplePatterns, err := ipd.ProtFunc(sample, ipd.Scheme)
-		if err != nil {
-			return fmt.Errorf("get protect ranges: %w", err)
-		}
+		subsamplePatterns := patterns[i]
 		switch ipd.Scheme {
 		case "cenc":
 			err = CryptSampleCenc(sample, key, iv, subsamplePatterns)
